@@ -55,57 +55,70 @@ Proof. rewrite hex_is_range, mem_app, !mem_range. lia. Qed.
 Lemma isspace_s_cases c : isspace_s c = (c =? 32) || (c =? 12) || (c =? 10) || (c =? 13) || (c =? 9) || (c =? 11).
 Proof. unfold isspace_s, mem, white_space. cbn [existsb]. lia. Qed.
 
+Lemma b2z_test b : negb (b2z b =? 0) = b.
+Proof. destruct b; reflexivity. Qed.
+
 Ltac unfold_models :=
-  unfold isalnum_m, isalpha_m, isblank_m, iscntrl_m, isgraph_m, isprint_m, ispunct_m, isspace_m, isxdigit_m,
+  unfold isprint_m, iswprint_m in *; unfold isgraph_m, iswgraph_m in *;
+  unfold isalnum_m, isalpha_m, isblank_m, iscntrl_m, ispunct_m, isspace_m, isxdigit_m,
          isdigit_m, islower_m, isupper_m,
-         iswalnum_m, iswalpha_m, iswblank_m, iswcntrl_m, iswgraph_m, iswprint_m, iswpunct_m, iswspace_m, iswxdigit_m,
-         iswdigit_m, iswlower_m, iswupper_m, between, b2z in *.
+         iswalnum_m, iswalpha_m, iswblank_m, iswcntrl_m, iswpunct_m, iswspace_m, iswxdigit_m,
+         iswdigit_m, iswlower_m, iswupper_m in *;
+  rewrite ?b2z_test in *; unfold between in *.
 Ltac unfold_specs :=
-  unfold isalnum_s, isalpha_s, isxdigit_s, isblank_s, isprint_s, iscntrl_s, isgraph_s, ispunct_s in *;
+  unfold ispunct_s, isgraph_s in *; unfold isalnum_s in *; unfold isalpha_s, isxdigit_s, isblank_s, isprint_s, iscntrl_s in *;
   rewrite ?isspace_s_cases, ?isupper_s_range, ?islower_s_range, ?isdigit_s_range, ?hex_s_range in *.
 
 (* these hold for every integer; the property's domain [-1,255] is kept in the published statements *)
-Lemma isdigit_ok c : isdigit_m c = b2z (isdigit_s c).  Proof. unfold_specs. unfold_models. lia. Qed.
-Lemma islower_ok c : islower_m c = b2z (islower_s c).  Proof. unfold_specs. unfold_models. lia. Qed.
-Lemma isupper_ok c : isupper_m c = b2z (isupper_s c).  Proof. unfold_specs. unfold_models. lia. Qed.
-Lemma isalpha_ok c : isalpha_m c = b2z (isalpha_s c).  Proof. unfold_specs. unfold_models. lia. Qed.
-Lemma isalnum_ok c : isalnum_m c = b2z (isalnum_s c).  Proof. unfold_specs. unfold_models. lia. Qed.
-Lemma isblank_ok c : isblank_m c = b2z (isblank_s c).  Proof. unfold_specs. unfold_models. lia. Qed.
-Lemma iscntrl_ok c : iscntrl_m c = b2z (iscntrl_s c).  Proof. unfold_specs. unfold_models. lia. Qed.
-Lemma isspace_ok c : isspace_m c = b2z (isspace_s c).  Proof. unfold_specs. unfold_models. lia. Qed.
-Lemma isxdigit_ok c : isxdigit_m c = b2z (isxdigit_s c). Proof. unfold_specs. unfold_models. lia. Qed.
-Lemma ispunct_ok c : ispunct_m c = b2z (ispunct_s c).  Proof. unfold_specs. unfold_models. lia. Qed.
-Lemma isgraph_ok c : isgraph_m c = b2z (isgraph_s c).  Proof. unfold_specs. unfold_models. lia. Qed.
-Lemma isprint_ok c : isprint_m c = b2z (isprint_s c).  Proof. unfold_specs. unfold_models. lia. Qed.
+Lemma isdigit_ok c : isdigit_m c = b2z (isdigit_s c).  Proof. unfold_specs. unfold_models. f_equal; try lia. Qed.
+Lemma islower_ok c : islower_m c = b2z (islower_s c).  Proof. unfold_specs. unfold_models. f_equal; try lia. Qed.
+Lemma isupper_ok c : isupper_m c = b2z (isupper_s c).  Proof. unfold_specs. unfold_models. f_equal; try lia. Qed.
+Lemma isalpha_ok c : isalpha_m c = b2z (isalpha_s c).  Proof. unfold_specs. unfold_models. f_equal; try lia. Qed.
+Lemma isalnum_ok c : isalnum_m c = b2z (isalnum_s c).  Proof. unfold_specs. unfold_models. f_equal; try lia. Qed.
+Lemma isblank_ok c : isblank_m c = b2z (isblank_s c).  Proof. unfold_specs. unfold_models. f_equal; try lia. Qed.
+Lemma iscntrl_ok c : iscntrl_m c = b2z (iscntrl_s c).  Proof. unfold_specs. unfold_models. f_equal; try lia. Qed.
+Lemma isspace_ok c : isspace_m c = b2z (isspace_s c).  Proof. unfold_specs. unfold_models. f_equal; try lia. Qed.
+Lemma isxdigit_ok c : isxdigit_m c = b2z (isxdigit_s c). Proof. unfold_specs. unfold_models. f_equal; try lia. Qed.
+Lemma ispunct_ok c : ispunct_m c = b2z (ispunct_s c).  Proof. unfold_specs. unfold_models. f_equal; try lia. Qed.
+Lemma isgraph_ok c : isgraph_m c = b2z (isgraph_s c).  Proof. unfold_specs. unfold_models. f_equal; try lia. Qed.
+Lemma isprint_ok c : isprint_m c = b2z (isprint_s c).  Proof. unfold_specs. unfold_models. f_equal; try lia. Qed.
 
 Lemma tolower_s_cases c : tolower_s c = if (65 <=? c) && (c <=? 90) then c + 32 else c.
 Proof.
   unfold tolower_s. rewrite upper_is_range, index_of_range, lower_is_range.
-  destruct ((65 <=? c) && (c <? 65 + Z.of_nat 26)) eqn:E; destruct ((65 <=? c) && (c <=? 90)) eqn:E2; try lia; [|reflexivity].
+  replace ((65 <=? c) && (c <? 65 + Z.of_nat 26)) with ((65 <=? c) && (c <=? 90)) by lia.
+  destruct ((65 <=? c) && (c <=? 90)) eqn:E; [|reflexivity].
   rewrite nth_range by lia. lia.
 Qed.
 Lemma toupper_s_cases c : toupper_s c = if (97 <=? c) && (c <=? 122) then c - 32 else c.
 Proof.
   unfold toupper_s. rewrite lower_is_range, index_of_range, upper_is_range.
-  destruct ((97 <=? c) && (c <? 97 + Z.of_nat 26)) eqn:E; destruct ((97 <=? c) && (c <=? 122)) eqn:E2; try lia; [|reflexivity].
+  replace ((97 <=? c) && (c <? 97 + Z.of_nat 26)) with ((97 <=? c) && (c <=? 122)) by lia.
+  destruct ((97 <=? c) && (c <=? 122)) eqn:E; [|reflexivity].
   rewrite nth_range by lia. lia.
+Qed.
+
+Lemma chk_i32_ok x : -2147483648 <= x <= 2147483647 -> chk i32 x = Some x.
+Proof.
+  intros H. unfold chk.
+  assert (E : in_ty i32 x = true).
+  { unfold in_ty, imin, imax, i32, smin, smax. cbn [sgn bits]. change (2 ^ (32 - 1)) with 2147483648. lia. }
+  rewrite E. reflexivity.
 Qed.
 
 Lemma tolower_ok c : tolower_m c = Some (tolower_s c).
 Proof.
-  rewrite tolower_s_cases. unfold tolower_m, isupper_m, between, b2z, chk, in_ty, imin, imax, i32, smin, smax.
-  cbn [sgn bits]. change (2 ^ (32 - 1)) with 2147483648.
-  destruct ((c >=? 65) && (c <=? 90)) eqn:E; destruct ((65 <=? c) && (c <=? 90)) eqn:E2; try lia; cbn [Z.eqb negb].
-  - destruct ((-2147483648 <=? c + 32) && (c + 32 <=? 2147483648 - 1)) eqn:E3; [reflexivity | lia].
-  - reflexivity.
+  rewrite tolower_s_cases. unfold tolower_m, isupper_m, between. rewrite b2z_test.
+  replace ((c >=? 65) && (c <=? 90)) with ((65 <=? c) && (c <=? 90)) by lia.
+  destruct ((65 <=? c) && (c <=? 90)) eqn:E; [|reflexivity].
+  apply chk_i32_ok. lia.
 Qed.
 Lemma toupper_ok c : toupper_m c = Some (toupper_s c).
 Proof.
-  rewrite toupper_s_cases. unfold toupper_m, islower_m, between, b2z, chk, in_ty, imin, imax, i32, smin, smax.
-  cbn [sgn bits]. change (2 ^ (32 - 1)) with 2147483648.
-  destruct ((c >=? 97) && (c <=? 122)) eqn:E; destruct ((97 <=? c) && (c <=? 122)) eqn:E2; try lia; cbn [Z.eqb negb].
-  - destruct ((-2147483648 <=? c - 32) && (c - 32 <=? 2147483648 - 1)) eqn:E3; [reflexivity | lia].
-  - reflexivity.
+  rewrite toupper_s_cases. unfold toupper_m, islower_m, between. rewrite b2z_test.
+  replace ((c >=? 97) && (c <=? 122)) with ((97 <=? c) && (c <=? 122)) by lia.
+  destruct ((97 <=? c) && (c <=? 122)) eqn:E; [|reflexivity].
+  apply chk_i32_ok. lia.
 Qed.
 
 Theorem cctype_classes : forall c, -1 <= c <= 255 ->
@@ -130,17 +143,20 @@ Theorem cwctype_classes : forall c, 0 <= c < 4294967296 ->
   iswlower_m c = b2z (islower_s c) /\ iswprint_m c = b2z (isprint_s c) /\ iswpunct_m c = b2z (ispunct_s c) /\
   iswspace_m c = b2z (isspace_s c) /\ iswupper_m c = b2z (isupper_s c) /\ iswxdigit_m c = b2z (isxdigit_s c).
 Proof.
-  intros c Hc. unfold_specs. unfold_models. repeat split; lia.
+  intros c Hc. unfold_specs. unfold_models. repeat split; f_equal; try lia.
 Qed.
 
 Theorem cwctype_conversions : forall c, 0 <= c < 4294967296 ->
   towlower_m c = tolower_s c /\ towupper_m c = toupper_s c.
 Proof.
   intros c Hc. rewrite tolower_s_cases, toupper_s_cases.
-  unfold towlower_m, towupper_m, iswupper_m, iswlower_m, between, b2z, wrapu.
-  change (2 ^ 32) with 4294967296. split.
-  - destruct ((c >=? 65) && (c <=? 90)) eqn:E; destruct ((65 <=? c) && (c <=? 90)) eqn:E2; try lia; cbn [Z.eqb negb]; lia.
-  - destruct ((c >=? 97) && (c <=? 122)) eqn:E; destruct ((97 <=? c) && (c <=? 122)) eqn:E2; try lia; cbn [Z.eqb negb]; lia.
+  unfold towlower_m, towupper_m, iswupper_m, iswlower_m, between, wrapu. rewrite !b2z_test.
+  change (2 ^ 32) with 4294967296.
+  replace ((c >=? 65) && (c <=? 90)) with ((65 <=? c) && (c <=? 90)) by lia.
+  replace ((c >=? 97) && (c <=? 122)) with ((97 <=? c) && (c <=? 122)) by lia.
+  split.
+  - destruct ((65 <=? c) && (c <=? 90)) eqn:E; lia.
+  - destruct ((97 <=? c) && (c <=? 122)) eqn:E; lia.
 Qed.
 
 (** the 7.4 classes are consistent: every argument in [0,127] is a control or a printing character and not
@@ -159,14 +175,40 @@ Definition in_range (t : ity) (x : Z) : Prop := imin t <= x <= imax t.
 
 Lemma div_spec_quot : forall x y, y <> 0 -> div_s x y = (Z.quot x y, Z.rem x y).
 Proof.
-  intros x y Hy. unfold div_s. f_equal.
-  - rewrite <- (Z.sgn_abs x) at 3. rewrite <- (Z.sgn_abs y) at 3.
-    rewrite Z.quot_mul_opp_opp_sgn by lia. rewrite Z.quot_div_nonneg by lia.
-    rewrite Z.sgn_mul, !Z.sgn_sgn. destruct (Z.eq_dec x 0) as [->|Hx]; [reflexivity|]. lia.
-  - pose proof (Z.quot_rem' x y) as H.
-    assert (E : Z.sgn x * Z.sgn y * (Z.abs x / Z.abs y) = Z.quot x y).
-    { rewrite <- (Z.sgn_abs x) at 3. rewrite <- (Z.sgn_abs y) at 3.
-      rewrite Z.quot_mul_opp_opp_sgn by lia. rewrite Z.quot_div_nonneg by lia.
-      rewrite Z.sgn_mul, !Z.sgn_sgn. destruct (Z.eq_dec x 0) as [->|Hx]; [reflexivity|]. lia. }
-    rewrite E. lia.
+  intros x y Hy. unfold div_s. rewrite <- (Z.quot_div x y Hy).
+  rewrite (Z.rem_eq x y Hy). f_equal. lia.
+Qed.
+
+Lemma chk_ok t x : in_range t x -> chk t x = Some x.
+Proof.
+  intros [H1 H2]. unfold chk, in_ty.
+  destruct ((imin t <=? x) && (x <=? imax t)) eqn:E; [reflexivity | lia].
+Qed.
+
+(* C17 7.22.6.2: defined when the divisor is not zero and the quotient is representable *)
+Theorem div_ok : forall t x y, in_range t x -> in_range t y -> y <> 0 -> in_range t (fst (div_s x y)) ->
+  div_m t x y = Some (div_s x y).
+Proof.
+  intros t x y Hx Hy Hy0 Hq. rewrite div_spec_quot in * by assumption. cbn [fst] in Hq.
+  unfold div_m. destruct (y =? 0) eqn:E; [lia|].
+  rewrite chk_ok by assumption. reflexivity.
+Qed.
+
+(* for the two's complement types of the code the quotient is representable unless x = min and y = -1 *)
+Lemma div_quot_in_range : forall w x y, 0 < w ->
+  in_range {| bits := w; sgn := true |} x -> in_range {| bits := w; sgn := true |} y -> y <> 0 ->
+  ~ (x = - 2 ^ (w - 1) /\ y = -1) -> in_range {| bits := w; sgn := true |} (fst (div_s x y)).
+Proof.
+  intros w x y Hw Hx Hy Hy0 Hnot. rewrite div_spec_quot by assumption. cbn [fst].
+  unfold in_range, imin, imax, smin, smax in *. cbn [sgn bits] in *.
+  set (P := 2 ^ (w - 1)) in *. assert (0 < P) by (apply Z.pow_pos_nonneg; lia).
+  nia.
+Qed.
+
+(* 7.22.6.1: labs/llabs; undefined when the result is not representable (x = min) *)
+Theorem abs_ok : forall t x, in_range t x -> in_range t (Z.abs x) -> abs_m t x = Some (Z.abs x).
+Proof.
+  intros t x Hx Ha. unfold abs_m. destruct (x >=? 0) eqn:E.
+  - f_equal. lia.
+  - replace (x * -1) with (Z.abs x) by lia. apply chk_ok. assumption.
 Qed.
